@@ -63,6 +63,10 @@ RLGetItem(dt, a, idx) ==
          [] k = "list" -> LET q == [i \in DOMAIN idx[2] |-> NormInt(n, idx[2][i])] IN
                           IF \E i \in DOMAIN q : q[i] < 0 THEN R_UNSPEC ELSE <<"flat", dt, Take(a, q)>>
          [] k = "mask" -> IF Len(idx[2]) # n THEN R_UNSPEC ELSE <<"flat", dt, Keep(a, idx[2])>>
+         \* a 2-D array of positions (rows of equal length): the matrix of the addressed elements, as for any numpy array
+         [] k = "list2d" -> IF idx[2] = <<>> \/ idx[2][1] = <<>> \/ (\E r1 \in DOMAIN idx[2] : Len(idx[2][r1]) # Len(idx[2][1]))
+                               \/ (\E r2 \in DOMAIN idx[2] : \E c2 \in DOMAIN idx[2][r2] : NormInt(n, idx[2][r2][c2]) < 0) THEN R_UNSPEC
+                            ELSE <<"matrix", dt, [r3 \in DOMAIN idx[2] |-> [c3 \in DOMAIN idx[2][r3] |-> a[NormInt(n, idx[2][r3][c3]) + 1]]]>>
          [] k = "rlmask" -> IF Len(idx[2]) # n THEN R_UNSPEC ELSE <<"rl", dt, Keep(a, idx[2]), FALSE>>
          [] k = "slice" -> IF idx[4] = 0 THEN R_UNSPEC
                            ELSE <<"rl", dt, SliceSeq(a, idx[2], idx[3], idx[4]), idx[4] \notin {NONE, 1}>>
